@@ -71,6 +71,8 @@ class Gen:
     r = self.rng.random()
     if r < 0.12:
       return {'const': self.rng.randrange(14)}
+    if r < 0.135:
+      return {'halfcopy': self.rng.randrange(2)}   # cannot be deep-copied / pickled
     if r < 0.6 or depth >= 2:
       return self.token()
     if r < 0.66 and self.shareable:
@@ -119,8 +121,23 @@ class Gen:
                    or M.CONST_POOL[i] is not mobj]
           other = [i for i in other if repr(M.CONST_POOL[i]) != repr(mobj)]
           return {'const': self.rng.choice(other)} if other else None
+    def shares(d, acc):
+      if isinstance(d, dict):
+        if 'share' in d:
+          acc.append(d['share'])
+        if 'twin' in d:
+          acc.append(d['twin'])
+        for v in d.values():
+          shares(v, acc)
+      elif isinstance(d, list):
+        for v in d:
+          shares(v, acc)
+      return acc
     for nid, obj in mk.memo.items():
-      if obj is mobj and nid in mk.descs:
+      # (only values of the LIVE configuration: after a deep copy took its place,
+      # earlier descriptors refer to objects of the discarded original)
+      if (obj is mobj and nid in mk.descs and nid in self.shareable
+          and all(x in self.shareable for x in shares(mk.descs[nid], []))):
         self.next_id += 1
         d = {'twin': nid, 'id': self.next_id}
         self.shareable.append(self.next_id)
@@ -213,7 +230,7 @@ def gen_case(world, tier, prop):
       op = {'op': 'getattr', 'name': g.name(m)}
     elif r < 0.28:
       nm = g.name(m)
-      if nm in m.sv.defaults and isinstance(m.sv.defaults[nm], str) and rng.random() < 0.2:
+      if nm in m.sv.defaults and isinstance(m.sv.defaults[nm], (str, int, float)) and rng.random() < 0.2:
         v = m.sv.defaults[nm]  # explicitly set to the default
       elif nm in m.named and rng.random() < 0.15:
         v = g.equalish(m.named[nm], mk)
@@ -233,7 +250,7 @@ def gen_case(world, tier, prop):
         i_ = key + n_ if key < 0 else key
         if 0 <= i_ < m.sv.P:
           d_ = m.sv.prefix[i_].default
-          if isinstance(d_, str):
+          if isinstance(d_, (str, int, float)):
             v = d_   # a positional parameter explicitly set to its default
       if v is None and isinstance(key, int) and rng.random() < 0.2:
         view_ = m.view()
@@ -277,6 +294,8 @@ def gen_case(world, tier, prop):
         # values created so far now live on in the discarded original only
         g.shareable = []
         snapshot = []
+    if op['op'] in ('setattr', 'delattr', 'setitem', 'delitem') and rng.random() < 0.15:
+      op['susp'] = True    # made while history tracking is suspended
     ops.append(op)
     # advance the model so later ops are generated against the right size
     try:
@@ -286,6 +305,11 @@ def gen_case(world, tier, prop):
   case = {'spec': spec, 'init': init, 'ops': ops, 'early_copy': early}
   if btype == 'Config' and rng.random() < 0.15:
     case['mutating_callee'] = True
+  if rng.random() < 0.3:
+    case['sig_decoy'] = True
+  if btype == 'Config' and rng.random() < 0.2:
+    case['failing_child'] = {'cls': rng.choice(sorted(NESTED_FAILURES)),
+                             'nth': rng.randint(1, 2)}
   return case
 
 
@@ -430,6 +454,27 @@ def shape(m: M.MNode):
           'n_po': len(sv.po), 'n_pk': len(sv.pk)}
 
 
+def _holds_halfcopy(cfg):
+  from fsim import stubmod
+  seen = set()
+
+  def go(v):
+    if id(v) in seen:
+      return False
+    seen.add(id(v))
+    if isinstance(v, stubmod.HalfCopyable):
+      return True
+    if isinstance(v, fdl.Buildable):
+      hist = [e.new_value for es in v.__argument_history__.values() for e in es]
+      return any(go(c) for c in list(v.__arguments__.values()) + hist)
+    if isinstance(v, (list, tuple)):
+      return any(go(c) for c in v)
+    if isinstance(v, dict):
+      return any(go(c) for c in v.values())
+    return False
+  return go(cfg)
+
+
 def viol(prop, clause, op, msg, m, extra=None):
   fp = {'property': prop, 'clause': clause, 'op': op['op']}
   if 'key' in op:
@@ -454,6 +499,20 @@ def run(case):
     d[k] = d.get(k, 0) + 1
 
   rec.mutate_args = bool(case.get('mutating_callee'))
+  if case.get('sig_decoy'):
+    # process history: ANOTHER callable whose signature compares equal (defaults
+    # equal across types, keyword-only parameters in another order) was
+    # configured first
+    tw = stubs.twin_spec(case['spec'], 'f0d')
+    if tw is not None:
+      twin = stubs.install([tw])['f0d']
+      try:
+        d_ = fdl.Config(twin)
+        fdl.ordered_arguments(d_, include_defaults=True)
+        del d_
+      except Exception:  # pylint: disable=broad-except
+        pass
+      probes['equal_signature_decoy_first'] = 1
   init = {'node': case['init']}
   try:
     m = mk_m(init)
@@ -478,11 +537,15 @@ def run(case):
       cfg = {'deepcopy': _copy.deepcopy, 'copy': _copy.copy,
              'pickle': lambda c: _pickle.loads(_pickle.dumps(c))}[case['early_copy']](cfg)
     except Exception as e:  # pylint: disable=broad-except
-      msg = f'{case["early_copy"]} of a fresh config raised {type(e).__name__}: {e}'
-      res['violations'].append(viol('C03', 'valid-op-raised', {'op': 'construct'}, msg, m))
-      res['violations'].append(viol('C01', 'copy-reports-differently', {'op': 'construct'}, msg, m))
-      return res
-    probes['copied_before_first_use'] = 1
+      if not (case['early_copy'] != 'copy' and _holds_halfcopy(cfg)):
+        msg = f'{case["early_copy"]} of a fresh config raised {type(e).__name__}: {e}'
+        res['violations'].append(viol('C03', 'valid-op-raised', {'op': 'construct'}, msg, m))
+        res['violations'].append(viol('C01', 'copy-reports-differently', {'op': 'construct'}, msg, m))
+        return res
+      # (a value that cannot be duplicated: loud refusal, go on with the original)
+      probes['uncopyable_refused'] = probes.get('uncopyable_refused', 0) + 1
+    else:
+      probes['copied_before_first_use'] = 1
   om, oi = C.canon(observe_model(m)), C.canon(observe_impl(cfg, m))
   if om != oi:
     msg = 'after construction: ' + '; '.join(C.diff(om, oi))
@@ -499,6 +562,11 @@ def run(case):
       if v:
         res['violations'].append(v)
         return res
+      if case.get('failing_child'):
+        v = check_build_with_failing_child(cfg, m, op, probes, case['failing_child'])
+        if v:
+          res['violations'].append(v)
+          return res
       if rec.mutate_args:
         # the callables modified the containers they were GIVEN; what the config
         # reports as configured changes through the constructor and edits only
@@ -520,6 +588,18 @@ def run(case):
         cfg = {'deepcopy': _copy.deepcopy, 'copy': _copy.copy,
                'pickle': lambda c: _pickle.loads(_pickle.dumps(c))}[op['how']](cfg)
       except Exception as e:  # pylint: disable=broad-except
+        if op['how'] != 'copy' and _holds_halfcopy(cfg):
+          # a value that cannot be duplicated: the refusal is loud and fine, but
+          # the configuration it was asked of must be what it was
+          probes['uncopyable_refused'] = probes.get('uncopyable_refused', 0) + 1
+          oi2 = C.canon(observe_impl(cfg, m))
+          if oi2 != oi:
+            res['violations'].append(viol(
+                'C03', 'rejected-op-changed-state', op,
+                f'op #{idx}: a refused {op["how"]} ({type(e).__name__}) changed what '
+                'the ORIGINAL reports: ' + '; '.join(C.diff(oi, oi2)), m))
+            return res
+          continue
         res['violations'].append(viol('C03', 'valid-op-raised', op,
                                       f'op #{idx} {op["how"]} of the config raised '
                                       f'{type(e).__name__}: {e}', m))
@@ -544,7 +624,13 @@ def run(case):
       why = str(e)
       m = m_before
     try:
-      ival = apply_impl(cfg, op, mk_i)
+      if op.get('susp'):
+        from fiddle._src import history as _history
+        with _history.suspend_tracking():
+          ival = apply_impl(cfg, op, mk_i)
+        probes['edit_while_tracking_suspended'] = probes.get('edit_while_tracking_suspended', 0) + 1
+      else:
+        ival = apply_impl(cfg, op, mk_i)
       raised = None
     except Exception as e:  # pylint: disable=broad-except
       raised = e
@@ -599,6 +685,58 @@ def run(case):
     res['state_hashes'].append(stable_hash(C.canon([m.view(), m.named])))
   res['nontrivial'] = changing >= 3 or faults.get('rejected_op', 0) >= 1
   return res
+
+
+NESTED_FAILURES = {'StopIteration': StopIteration, 'KeyError': KeyError,
+                   'TypeError': TypeError, 'AttributeError': AttributeError,
+                   'ValueError': ValueError, 'RuntimeError': RuntimeError}
+
+
+def check_build_with_failing_child(cfg, m, op, probes, plan):
+  """A nested Buildable's callable raises: the configured call cannot be formed,
+  so build must fail -- never call f with whatever is left."""
+  rec = stubs.CURRENT
+  raised = []
+
+  def hook(r, state):
+    if r.stub in ('g0', 'g1'):
+      state['n'] += 1
+      if state['n'] == plan['nth']:
+        e = NESTED_FAILURES[plan['cls']](f'nested callable #{state["n"]} fails')
+        raised.append(e)
+        raise e
+  st = {'n': 0}
+  rec.on_invoke = lambda r: hook(r, st)
+  try:
+    try:
+      model_build(m, {}, {})
+      return None                      # fewer nested calls than nth: no fault here
+    except Exception as e:  # pylint: disable=broad-except
+      chain, e_ = [], e
+      while e_ is not None and len(chain) < 10:
+        chain.append(e_)
+        e_ = e_.__cause__ or e_.__context__
+      if not raised or not any(c is raised[-1] for c in chain):
+        if isinstance(e, (Unformable, TypeError)):
+          return None                  # unformable for other reasons: plain arm's business
+        raise
+    n_before = len(rec.log)
+    st2 = {'n': 0}
+    rec.on_invoke = lambda r: hook(r, st2)
+    try:
+      actual = fdl.build(cfg)
+      act_exc = None
+    except Exception as e:  # pylint: disable=broad-except
+      actual, act_exc = None, e
+  finally:
+    rec.on_invoke = None
+  probes['build_with_failing_child'] = probes.get('build_with_failing_child', 0) + 1
+  if act_exc is None:
+    called = [r.stub for r in rec.log[n_before:]]
+    return viol('C01', 'called-without-failed-child', op,
+                f'a nested callable raised {plan["cls"]} but build returned '
+                + C.short(C.canon(actual)) + f' (invocations: {called})', m)
+  return None
 
 
 def check_build(cfg, m, op, probes):
